@@ -108,7 +108,7 @@ sanitize_utf8 (const char *text, size_t length)
         }
     }
 
-    assert (c1 == UTF8_END);
+    /* c1 is UTF8_ERROR for ill-formed input: the copy stops there */
     sanitized[pos] = '\0';
 
     return sanitized;
